@@ -1,3 +1,25 @@
+mod c13;
+mod coqfmt;
+mod reflect;
+mod rng;
+
+use std::path::PathBuf;
+
+fn arg(args: &[String], name: &str) -> Option<String> {
+    args.iter().position(|a| a == name).and_then(|i| args.get(i + 1).cloned())
+}
+
 fn main() {
-    println!("W={}", brc20_prog::verif_hooks::MAX_REORG_HISTORY_SIZE);
+    let args: Vec<String> = std::env::args().collect();
+    let cmd = args.get(1).cloned().unwrap_or_default();
+    let out = PathBuf::from(arg(&args, "--out").unwrap_or_else(|| ".".into()));
+    let seed: u64 = arg(&args, "--seed").and_then(|s| s.parse().ok()).unwrap_or(1);
+    let thorough = arg(&args, "--tier").map(|t| t == "thorough").unwrap_or(false);
+    std::fs::create_dir_all(&out).expect("create out dir");
+    let r = match cmd.as_str() {
+        "reflect" => reflect::run(&out),
+        "c13" => c13::run(&out, seed, thorough),
+        _ => { eprintln!("usage: hx <reflect|c13|...> --out DIR [--seed N] [--tier quick|thorough]"); std::process::exit(2); }
+    };
+    if let Err(e) = r { eprintln!("hx {}: error: {}", cmd, e); std::process::exit(3); }
 }
